@@ -1,8 +1,8 @@
 package checks
 
 import (
-	"math"
 	"fmt"
+	"math"
 	"math/rand"
 	"strings"
 
@@ -18,7 +18,9 @@ func pureProfile() *gast.Profile {
 	p.W[gast.Action] = 14
 	p.W[gast.RuleRef] = 16
 	p.PLabel = 55
-	p.ActSpec = func(r *rand.Rand) mon.Spec { return mon.Spec{R: pick(r, 0, 0, 0, 1, 2, 3), E: pick(r, 0, 0, 0, 1, 2, 3, 4)} }
+	p.ActSpec = func(r *rand.Rand) mon.Spec {
+		return mon.Spec{R: pick(r, 0, 0, 0, 1, 2, 3), E: pick(r, 0, 0, 0, 1, 2, 3, 4)}
+	}
 	p.PredSpec = func(r *rand.Rand) mon.Spec { return mon.Spec{B: pick(r, 0, 0, 1, 4), E: pick(r, 0, 0, 0, 1)} }
 	return p
 }
@@ -40,7 +42,7 @@ func C06(c *Ctx) {
 		Profile: pureProfile(), Grammars: c06Strata(), NGrammars: c.N(90, 1500),
 		FlagSets:  [][]string{{}},
 		InputsPer: c.N(50, 120), ExhaustLimit: c.N(120, 700), ExhaustLen: 7,
-		OptSets:    os, DebugOptEvery: 3,
+		OptSets: os, DebugOptEvery: 3,
 		Compare:    CmpVal | CmpErrs | CmpOK | CmpEnd | CmpTrace | CmpMemoOnce,
 		NonTrivial: func(m *ref.Result) bool { return m.Backtracks >= 2 && len(m.Trace) >= 2 },
 		StalePS:    "F02-stale-pred-pos",
